@@ -43,6 +43,16 @@ def colon_version(p, q):
     return p
 
 
+@memento_function(version="core::v2")
+def dcolon_version(p, q):          # a version string may itself contain the cluster separator
+    return p
+
+
+@memento_function(version="lib::rel:7")
+def dcolon_version2(p):
+    return p
+
+
 @memento_function
 def auto_version(n):
     return n
@@ -78,5 +88,5 @@ def failing(x):
 LOCAL = {  # name -> (function, parameter names)
     "target": (target, ["x", "y"]), "one": (one, ["a"]), "three": (three, ["a", "b", "c"]),
     "kwo": (kwo, ["a", "k", "m"]), "clustered": (clustered, ["x"]), "colon_version": (colon_version, ["p", "q"]),
-    "auto_version": (auto_version, ["n"]),
+    "auto_version": (auto_version, ["n"]), "dcolon_version": (dcolon_version, ["p", "q"]), "dcolon_version2": (dcolon_version2, ["p"]),
 }
